@@ -201,24 +201,24 @@ Proof.
       * unfold copy_file, mkdir_parents in E. destruct (mkdirs m (proper_prefixes (se_path e))) as [m1|]; [|discriminate].
         destruct (m1 (se_path e)) as [[? ? ?|]|]; inversion E; subst; try discriminate; rewrite fs_set_same; reflexivity.
       * inversion E; subst. rewrite fs_set_same. reflexivity.
-  - set (a := if c_checksum c then AUpdate else if needs_update c e (fst (ds (se_path e))) (snd (ds (se_path e))) then AUpdate else ASkip) in *.
-    assert (Ha : a = ASkip \/ a = AUpdate) by (subst a; destruct (c_checksum c), (needs_update c e (fst (ds (se_path e))) (snd (ds (se_path e)))); auto).
-    destruct Ha as [Ha|Ha]; rewrite Ha in *.
-    + inversion E; subst. rewrite Hm. reflexivity.
-    + rewrite Hd in E. unfold update_file in E. rewrite Hm in E. discriminate.
+  - (* a directory in the file's place: the update fails *)
+    rewrite Hd in E. unfold update_file in E. rewrite Hm in E. discriminate.
   - rewrite Hd in E. unfold copy_file, mkdir_parents in E. destruct (mkdirs m (proper_prefixes (se_path e))) as [m1|]; [|discriminate].
     destruct (m1 (se_path e)) as [[? ? ?|]|]; inversion E; subst; try discriminate; rewrite fs_set_same; reflexivity.
 Qed.
 
 Lemma own_task_dir c ds now dst m m' e :
   c_dry_run c = false -> se_is_dir e = true ->
-  (forall cc s t, dst (se_path e) <> Some (File cc s t)) ->           (* no file where the source has a directory *)
   (m (se_path e) = dst (se_path e) \/ m (se_path e) = Some Dir) ->
   exec_task c now m (plan_entry c ds dst e) = inl m' -> m' (se_path e) = Some Dir.
 Proof.
-  intros Hdry Hd Hnf Hm E. unfold exec_task in E. rewrite Hdry in E. unfold plan_entry in E. rewrite Hd in E. cbn [t_action t_src t_path] in E.
+  intros Hdry Hd Hm E. unfold exec_task in E. rewrite Hdry in E. unfold plan_entry in E. rewrite Hd in E. cbn [t_action t_src t_path] in E.
   destruct (dst (se_path e)) as [[cc s t|]|] eqn:Ed.
-  - exfalso. eapply Hnf. reflexivity.
+  - (* a file in the directory's place: the task is Create, and create_dir_all cannot succeed over the file *)
+    rewrite Hd in E. unfold mkdir_all in E. destruct (mkdirs_frame _ _ _ E) as (_ & F2 & F3).
+    assert (Hin : In (se_path e) (proper_prefixes (se_path e) ++ [se_path e])) by (apply in_or_app; right; left; reflexivity).
+    destruct Hm as [Hm|Hm]; [|apply F2; exact Hin].
+    pose proof (F2 _ Hin) as A. pose proof (F3 _ _ Hm) as B. congruence.
   - inversion E; subst. destruct Hm as [Hm|Hm]; exact Hm.
   - rewrite Hd in E. unfold mkdir_all in E. destruct (mkdirs_frame _ _ _ E) as (_ & F2 & _). apply F2. apply in_or_app. right. left. reflexivity.
 Qed.
@@ -288,27 +288,47 @@ Proof.
   unfold plan_entry, task_ok. cbn [t_src t_path t_action]. repeat split.
   destruct (se_is_dir e); destruct (dst (se_path e)) as [[dc dsz dmt|]|]; try discriminate;
     try (destruct (c_checksum c), (N.eqb dc (se_content e)), (needs_update c e dsz dmt); discriminate).
-  destruct (c_checksum c); [discriminate|]. destruct (needs_update c e (fst (ds (se_path e))) (snd (ds (se_path e)))); discriminate.
 Qed.
 
-Lemma skip_means_file c ds dst e : se_is_dir e = false -> dst (se_path e) <> Some Dir -> needs c ds dst e = false ->
+Lemma skip_means_file c ds dst e : se_is_dir e = false -> needs c ds dst e = false ->
   exists dc dsz dmt, dst (se_path e) = Some (File dc dsz dmt).
 Proof.
-  unfold needs, plan_entry. intros Hd Hnd. rewrite Hd. cbn [t_action].
-  destruct (dst (se_path e)) as [[dc dsz dmt|]|]; [eauto | congruence | discriminate].
+  unfold needs, plan_entry. intros Hd. rewrite Hd. cbn [t_action].
+  destruct (dst (se_path e)) as [[dc dsz dmt|]|]; [eauto | discriminate | discriminate].
+Qed.
+
+(* no entry of the wrong kind at the path of an entry whose task succeeds *)
+Definition okk (dst : fs) (e : sentry) : Prop :=
+  (se_is_dir e = true -> forall cc s t, dst (se_path e) <> Some (File cc s t)) /\
+  (se_is_dir e = false -> dst (se_path e) <> Some Dir).
+
+Lemma dir_task_success_not_file c ds now dst m m' e :
+  c_dry_run c = false -> se_is_dir e = true -> m (se_path e) = dst (se_path e) ->
+  exec_task c now m (plan_entry c ds dst e) = inl m' -> forall cc s t, dst (se_path e) <> Some (File cc s t).
+Proof.
+  intros Hdry Hd Hm E cc s t Ed. unfold exec_task in E. rewrite Hdry in E. unfold plan_entry in E. rewrite Hd, Ed in E. cbn [t_action t_src t_path] in E.
+  rewrite Hd in E. unfold mkdir_all in E. destruct (mkdirs_frame _ _ _ E) as (_ & F2 & F3).
+  assert (Hin : In (se_path e) (proper_prefixes (se_path e) ++ [se_path e])) by (apply in_or_app; right; left; reflexivity).
+  rewrite Ed in Hm. pose proof (F2 _ Hin) as A. pose proof (F3 _ _ Hm) as B. congruence.
+Qed.
+
+Lemma file_task_success_not_dir c ds now dst m m' e :
+  c_dry_run c = false -> se_is_dir e = false -> m (se_path e) = dst (se_path e) ->
+  exec_task c now m (plan_entry c ds dst e) = inl m' -> dst (se_path e) <> Some Dir.
+Proof.
+  intros Hdry Hd Hm E Ed. unfold exec_task in E. rewrite Hdry in E. unfold plan_entry in E. rewrite Hd, Ed in E. cbn [t_action t_src t_path] in E.
+  rewrite Hd in E. unfold update_file in E. rewrite Hm, Ed in E. discriminate.
 Qed.
 
 Lemma src_tasks_post c ds now dst : c_dry_run c = false ->
   forall todo done m mf,
     src_wf (done ++ todo) ->
-    (forall e, In e (done ++ todo) -> se_is_dir e = true -> forall cc s t, dst (se_path e) <> Some (File cc s t)) ->
-    (forall e, In e (done ++ todo) -> se_is_dir e = false -> dst (se_path e) <> Some Dir) ->
-    (forall e, In e done -> post c ds now dst m e) ->
-    (forall e, In e todo -> m (se_path e) = dst (se_path e) \/ (se_is_dir e = true /\ m (se_path e) = Some Dir)) ->
+    (forall e, In e done -> post c ds now dst m e /\ okk dst e) ->
+    (forall e, In e todo -> m (se_path e) = dst (se_path e) \/ (se_is_dir e = true /\ m (se_path e) = Some Dir /\ dst (se_path e) = None)) ->
     exec_seq c now m (map (plan_entry c ds dst) todo) = Some mf ->
-    forall e, In e (done ++ todo) -> post c ds now dst mf e.
+    forall e, In e (done ++ todo) -> post c ds now dst mf e /\ okk dst e.
 Proof.
-  intros Hdry. induction todo as [|e0 todo IH]; intros done m mf Hwf Hnf Hnd2 Hdone Htodo E e He.
+  intros Hdry. induction todo as [|e0 todo IH]; intros done m mf Hwf Hdone Htodo E e He.
   - cbn in E. inversion E; subst. rewrite app_nil_r in He. apply Hdone. exact He.
   - cbn [map exec_seq] in E. destruct (exec_task c now m (plan_entry c ds dst e0)) as [m1|] eqn:E0; [|discriminate].
     destruct (plan_entry_ok c ds dst e0) as (Hok & Hnd & Hp).
@@ -318,37 +338,42 @@ Proof.
     assert (Hdistinct : forall e1, In e1 (done ++ todo) -> se_path e1 <> se_path e0).
     { intros e1 H1 Eq. unfold paths_of in Hnd_paths. rewrite map_app in Hnd_paths. cbn [map] in Hnd_paths.
       apply NoDup_remove_2 in Hnd_paths. apply Hnd_paths. rewrite <- Eq. rewrite <- map_app. apply in_map. exact H1. }
-    apply (IH (done ++ [e0]) m1 mf Hwf'); [intros; eapply Hnf; [rewrite <- app_assoc in *|]; eassumption | intros; eapply Hnd2; [rewrite <- app_assoc in *|]; eassumption | | | exact E | exact He'].
+    apply (IH (done ++ [e0]) m1 mf Hwf'); [ | | exact E | exact He'].
     + (* entries already done keep their state; e0 reaches it *)
       intros e1 H1. apply in_app_or in H1. destruct H1 as [H1|[H1|[]]].
-      * destruct (Hdone e1 H1) as (x & Hx & Hg). exists x. split; [|exact Hg].
+      * destruct (Hdone e1 H1) as [(x & Hx & Hg) Hokk]. split; [|exact Hokk]. exists x. split; [|exact Hg].
         eapply exec_task_keeps; try eassumption. rewrite Hp. apply Hdistinct. apply in_or_app. left. exact H1.
       * subst e1.
         assert (Hin0 : In e0 (done ++ e0 :: todo)) by (apply in_or_app; right; left; reflexivity).
+        split.
+        2:{ (* the task of e0 succeeded: nothing of the wrong kind was in its place *)
+            unfold okk. destruct (Htodo e0 (or_introl eq_refl)) as [Hm|(Hd0 & _ & Hnone)].
+            - split; intro Hd0; [eapply dir_task_success_not_file; eassumption | eapply file_task_success_not_dir; eassumption].
+            - split; intro Hd1; [intros cc s t; congruence | congruence]. }
         destruct (se_is_dir e0) eqn:Hd.
         -- exists Dir. split; [|unfold good; rewrite Hd; reflexivity].
-           eapply own_task_dir; try eassumption; [intros; eapply Hnf; eassumption|].
-           destruct (Htodo e0 (or_introl eq_refl)) as [H|[_ H]]; [left|right]; exact H.
+           eapply own_task_dir; try eassumption.
+           destruct (Htodo e0 (or_introl eq_refl)) as [H|(_ & H & _)]; [left|right]; exact H.
         -- destruct (Htodo e0 (or_introl eq_refl)) as [Hm|[Hcontra _]]; [|congruence].
            pose proof (own_task_file c ds now dst m m1 e0 Hdry Hd Hm E0) as Hown. unfold post, good. rewrite Hd.
            destruct (needs c ds dst e0) eqn:En.
            ++ unfold file_post in Hown. eexists. split; [exact Hown | reflexivity].
-           ++ destruct (skip_means_file c ds dst e0 Hd (Hnd2 e0 Hin0 Hd) En) as (dc & dsz & dmt & Ed). exists (File dc dsz dmt). rewrite Hown, Ed. split; reflexivity.
+           ++ destruct (skip_means_file c ds dst e0 Hd En) as (dc & dsz & dmt & Ed). exists (File dc dsz dmt). rewrite Hown, Ed. split; reflexivity.
     + (* entries still to do are untouched, or (directories) already created *)
       intros e1 H1.
       assert (Hin1 : In e1 (done ++ e0 :: todo)) by (apply in_or_app; right; right; exact H1).
       assert (Hin0 : In e0 (done ++ e0 :: todo)) by (apply in_or_app; right; left; reflexivity).
       assert (Hq : se_path e1 <> t_path (plan_entry c ds dst e0)).
       { rewrite Hp. apply Hdistinct. apply in_or_app. right. exact H1. }
-      destruct (Htodo e1 (or_intror H1)) as [Hm|[Hd Hm]].
+      destruct (Htodo e1 (or_intror H1)) as [Hm|(Hd & Hm & Hnone)].
       * destruct (m (se_path e1)) as [x|] eqn:Ex.
         -- left. rewrite <- Hm. eapply exec_task_keeps; eassumption.
         -- destruct (exec_task_none c now m _ m1 (se_path e1) Hok Hnd E0 Hq Ex) as [Hn|Hn]; [left; congruence|].
            (* a directory appeared at e1's path: it is a proper ancestor of e0, hence e1 is a directory *)
-           destruct (se_is_dir e1) eqn:Hd1; [right; split; [reflexivity | exact Hn]|].
+           destruct (se_is_dir e1) eqn:Hd1; [right; split; [reflexivity | split; [exact Hn | congruence]]|].
            exfalso. pose proof (exec_task_created_is_ancestor c now m _ m1 (se_path e1) Hok Hnd E0 Hq Ex Hn) as Hanc.
            rewrite Hp in Hanc. exact (Hfile e1 e0 Hin1 Hin0 Hd1 Hanc).
-      * right. split; [exact Hd|]. eapply exec_task_keeps; eassumption.
+      * right. split; [exact Hd|]. split; [eapply exec_task_keeps; eassumption | exact Hnone].
 Qed.
 
 Lemma exec_seq_app c now : forall a b m, exec_seq c now m (a ++ b) =
@@ -395,13 +420,11 @@ Qed.
 (* ---------- C01: postcondition of a successful run ---------- *)
 Theorem run_post refuse ds c now U keep src dst :
   src_wf src -> c_dry_run c = false -> dst [] = None ->
-  (forall e, In e src -> se_is_dir e = true -> forall cc s t, dst (se_path e) <> Some (File cc s t)) ->
-  (forall e, In e src -> se_is_dir e = false -> dst (se_path e) <> Some Dir) ->
   let r := run refuse ds c now U keep src dst in
   r_refused r = false -> r_errors r = [] ->
   forall e, In e src -> post c ds now dst (r_fs r) e.
 Proof.
-  intros Hwf Hdry Hroot Hnf Hnd2 r Href Herr e He. subst r. unfold run in *. cbv zeta in *.
+  intros Hwf Hdry Hroot r Href Herr e He. subst r. unfold run in *. cbv zeta in *.
   set (listing := filter (fun p => match dst p with Some _ => true | None => false end) U) in *.
   set (dels := if c_delete c then plan_deletions (keep ++ src) listing else []) in *.
   match type of Href with context [if ?b then _ else _] => destruct b eqn:Eb end; [cbn in Href; discriminate|].
@@ -414,6 +437,24 @@ Proof.
     intros p Hp. subst listing. apply filter_In in Hp. destruct Hp as [_ Hp]. destruct (dst p); [discriminate | discriminate].
   - apply (src_tasks_post c ds now dst Hdry src [] dst m1); try assumption; [intros e1 [] | intros e1 _; left; reflexivity].
 Qed.
+
+(* a run that is not refused and reports no error met no entry of the wrong kind: a file where the source has a directory makes the
+   directory's creation fail, a directory where the source has a file makes the copy fail (`fix: an entry of the wrong kind in the
+   destination is reported, not skipped`) *)
+Theorem run_no_conflicts refuse ds c now U keep src dst :
+  src_wf src -> c_dry_run c = false ->
+  let r := run refuse ds c now U keep src dst in
+  r_refused r = false -> r_errors r = [] ->
+  forall e, In e src -> okk dst e.
+Proof.
+  intros Hwf Hdry r Href Herr e He. subst r. unfold run in *. cbv zeta in *.
+  match type of Href with context [if ?b then _ else _] => destruct b eqn:Eb end; [cbn in Href; discriminate|].
+  destruct (exec_all_noerr _ _ _ _ _ _ Herr) as [_ Eseq].
+  rewrite exec_seq_app in Eseq.
+  destruct (exec_seq c now dst (map (plan_entry c ds dst) src)) as [m1|] eqn:E1; [|discriminate].
+  apply (src_tasks_post c ds now dst Hdry src [] dst m1); try assumption; [intros e1 [] | intros e1 _; left; reflexivity].
+Qed.
+
 
 (* ---------- C07 / C08: refusal and dry-run leave the destination as it was ---------- *)
 Lemma exec_all_dry c now : c_dry_run c = true -> forall ts m errs evs, r_fs (exec_all c now m ts errs evs) = m.
@@ -551,17 +592,15 @@ Qed.
 (* an UNFILTERED run (nothing kept out): the destination's paths are exactly the source's *)
 Theorem mirror refuse ds c now U src dst :
   src_wf src -> c_dry_run c = false -> c_delete c = true -> dst [] = None ->
-  (forall e, In e src -> se_is_dir e = true -> forall cc s t, dst (se_path e) <> Some (File cc s t)) ->
-  (forall e, In e src -> se_is_dir e = false -> dst (se_path e) <> Some Dir) ->
   let r := run refuse ds c now U [] src dst in
   r_refused r = false -> r_errors r = [] ->
   forall q, In q U -> (r_fs r q <> None <-> In q (paths_of src)).
 Proof.
-  intros Hwf Hdry Hdel Hroot Hnf Hnd2 r Href Herr q HqU. split.
+  intros Hwf Hdry Hdel Hroot r Href Herr q HqU. split.
   - intro Hsome. destruct (in_dec (list_eq_dec N.eq_dec) q (paths_of src)) as [Hin|Hnin]; [exact Hin|]. exfalso. apply Hsome.
     apply (stale_removed refuse ds c now U [] src dst Hwf Hdry Hdel Hroot Href Herr q HqU). exact Hnin.
   - intro Hin. unfold paths_of in Hin. apply in_map_iff in Hin. destruct Hin as (e & <- & He).
-    destruct (run_post refuse ds c now U [] src dst Hwf Hdry Hroot Hnf Hnd2 Href Herr e He) as (x & Hx & _). fold r in Hx. congruence.
+    destruct (run_post refuse ds c now U [] src dst Hwf Hdry Hroot Href Herr e He) as (x & Hx & _). fold r in Hx. congruence.
 Qed.
 
 (* ---------- C10: truthful exit status ---------- *)
@@ -594,15 +633,16 @@ Definition event_true (dst final : fs) (ev : eaction * path) : Prop :=
 
 Theorem events_truthful refuse ds c now U keep src dst :
   src_wf src -> c_dry_run c = false -> dst [] = None ->
-  (forall e, In e src -> se_is_dir e = true -> forall cc s t, dst (se_path e) <> Some (File cc s t)) ->
-  (forall e, In e src -> se_is_dir e = false -> dst (se_path e) <> Some Dir) ->
   (forall p, dst p <> None -> In p U) ->
   let r := run refuse ds c now U keep src dst in
   r_refused r = false -> r_errors r = [] ->
   forall ev, In ev (r_events r) -> event_true dst (r_fs r) ev.
 Proof.
-  intros Hwf Hdry Hroot Hnf Hnd2 HU r Href Herr ev Hev.
-  pose proof (run_post refuse ds c now U keep src dst Hwf Hdry Hroot Hnf Hnd2 Href Herr) as Hpost.
+  intros Hwf Hdry Hroot HU r Href Herr ev Hev.
+  pose proof (run_post refuse ds c now U keep src dst Hwf Hdry Hroot Href Herr) as Hpost.
+  pose proof (run_no_conflicts refuse ds c now U keep src dst Hwf Hdry Href Herr) as Hokk.
+  assert (Hnf : forall e, In e src -> se_is_dir e = true -> forall cc s t, dst (se_path e) <> Some (File cc s t)) by (intros e0 H0 Hd0; apply (Hokk e0 H0); exact Hd0).
+  assert (Hnd2 : forall e, In e src -> se_is_dir e = false -> dst (se_path e) <> Some Dir) by (intros e0 H0 Hd0; apply (Hokk e0 H0); exact Hd0).
   assert (Hevs : r_events r = map (fun t => (t_action t, t_path t))
                    (map (plan_entry c ds dst) src ++ (if c_delete c then plan_deletions (keep ++ src) (filter (fun p => match dst p with Some _ => true | None => false end) U) else []))).
   { subst r. unfold run in *. cbv zeta in *.
